@@ -1,4 +1,5 @@
 import SpecKitV.Lemmas.Detrend
+import SpecKitV.Lemmas.DetrendComplete
 import SpecKitV.Props.C01
 
 #print axioms detr_neg_one
@@ -12,6 +13,10 @@ import SpecKitV.Props.C01
 #print axioms segDFT_add_const_order0
 #print axioms segDFT_add_span
 #print axioms detr_poly_keeps_orthogonal
+#print axioms ortho_rows_of_cols
+#print axioms proj_complete
+#print axioms detr_complete_basis_zero
+#print axioms segDFT_complete_basis_zero
 #print axioms stats_win_only_csd_eq_ref
 #print axioms stats_win_only_auto_eq_ref
 #print axioms stats_detrend0_csd_eq_ref
